@@ -44,11 +44,35 @@ func NewExecutionControl(client executionv1alpha1.ExecutionV1alpha1Interface, na
 }
 
 func (c *ExecutionControl) UpdateJob(ctx context.Context, rj, newRj *execution.Job) (bool, error) {
+	updatedRj, err := c.updateJob(ctx, rj, newRj)
+	return updatedRj != nil, err
+}
+
+// UpdateJobAndStatus updates the Job and then its status, each only if it differs from rj.
+// Updating the Job changes its resourceVersion, so the status is updated on top of the Job
+// that the apiserver returned: with the resourceVersion of rj, the status update would be
+// refused as a conflict whenever both have changed.
+func (c *ExecutionControl) UpdateJobAndStatus(ctx context.Context, rj, newRj *execution.Job) error {
+	updatedRj, err := c.updateJob(ctx, rj, newRj)
+	if err != nil {
+		return err
+	}
+	if updatedRj != nil {
+		newRj = newRj.DeepCopy()
+		newRj.ResourceVersion = updatedRj.ResourceVersion
+	}
+	_, err = c.UpdateJobStatus(ctx, rj, newRj)
+	return err
+}
+
+// updateJob updates the Job if it differs from rj. Returns the updated Job, or nil if
+// there was nothing to update.
+func (c *ExecutionControl) updateJob(ctx context.Context, rj, newRj *execution.Job) (*execution.Job, error) {
 	// No need to update if equal.
 	if isEqual, err := IsJobEqual(rj, newRj); err != nil {
-		return false, errors.Wrapf(err, "cannot compare job")
+		return nil, errors.Wrapf(err, "cannot compare job")
 	} else if isEqual {
-		return false, nil
+		return nil, nil
 	}
 
 	if klog.V(5).Enabled() {
@@ -57,7 +81,7 @@ func (c *ExecutionControl) UpdateJob(ctx context.Context, rj, newRj *execution.J
 
 	updatedRj, err := c.client.Jobs(rj.GetNamespace()).Update(ctx, newRj, metav1.UpdateOptions{})
 	if err != nil {
-		return false, err
+		return nil, err
 	}
 
 	klog.V(3).InfoS("jobcontroller: updated job", logvalues.
@@ -66,7 +90,7 @@ func (c *ExecutionControl) UpdateJob(ctx context.Context, rj, newRj *execution.J
 		Build()...,
 	)
 
-	return true, nil
+	return updatedRj, nil
 }
 
 func (c *ExecutionControl) UpdateJobStatus(ctx context.Context, rj, newRj *execution.Job) (bool, error) {
